@@ -123,6 +123,7 @@ type Monitors struct {
 	Immutable bool // C15 (input bytes unchanged)
 	OutOfDomain bool // letters may be outside the round-trip domain (C08): no content oracle
 	Resend      bool // encode the very same pdata value twice in a row (C15)
+	ReadOnly    bool   // the input is marked read-only before encoding (any write panics): C15
 	RtProp      string // report round-trip failures under this property (C04) instead of C01..C03
 }
 
@@ -329,6 +330,16 @@ func (st *Stream) Step(l Letter) (viol []Violation) {
 			before, _ = (&pmetric.ProtoMarshaler{}).MarshalMetrics(md)
 		}
 	}
+	if st.mon.ReadOnly {
+		switch x := in.(type) {
+		case ptrace.Traces:
+			x.MarkReadOnly()
+		case plog.Logs:
+			x.MarkReadOnly()
+		case pmetric.Metrics:
+			x.MarkReadOnly()
+		}
+	}
 	pan := protect(func() {
 		switch x := in.(type) {
 		case ptrace.Traces:
@@ -379,6 +390,10 @@ func (st *Stream) Step(l Letter) (viol []Violation) {
 		if l.Big.N <= 65535 && err != nil {
 			add("C08", "a batch with %d %s (within the id width) was refused: %v", l.Big.N, l.Big.Kind, err)
 		}
+	}
+	if pan != "" && st.mon.ReadOnly && strings.Contains(pan, "invalid access to shared data") {
+		add("C15", "producer tried to modify its (read-only) input: %s", pan)
+		return viol
 	}
 	if pan != "" {
 		add("C08", "producer panicked: %s", pan)
